@@ -532,14 +532,29 @@ def norm(repo, fi: FuncInfo, t: T, keep=()) -> T:
     return canon(inline(repo, fi, t, keep=keep))
 
 
-def same_expr(repo, fi: FuncInfo, stmt: ast.AST, value: ast.AST, expected_src: str, keep=()) -> bool:
+def same_expr(repo, fi: FuncInfo, stmt: ast.AST, value: ast.AST, expected_src: str, keep=(), locals_from=None) -> bool:
     """Does `value` (an expression of statement `stmt` in `fi`) compute `expected_src`?  Both sides are expanded through
     local temporaries and value-only helpers and brought to normal form, so renaming / hoisting / helper extraction do
     not matter; anything else does."""
     ex = expander(repo, fi)
     try:
-        want = norm(repo, fi, ex.term_of_source(expected_src, stmt), keep=keep)
         got = norm(repo, fi, ex.term(value), keep=keep)
     except Exception:
         return False
-    return want.key() == got.key()
+    # `locals_from={"branch_list": "branches"}`: the name `branch_list` in the expected text stands for ANY local of the function
+    # whose value derives from the parameter `branches` (the local may be called anything)
+    srcs = [expected_src]
+    for ph, par in (locals_from or {}).items():
+        import re as _re
+        env = ex.env_at.get(id(stmt), {}) if stmt is not None else ex.final_env
+        cands = [nm for nm, tv in env.items() if nm not in fi.params and isinstance(tv, T) and
+                 T.find(tv, lambda x: x.op == "param" and x.name == par) is not None]
+        srcs = [_re.sub(r"\b%s\b" % _re.escape(ph), c_, s_) for s_ in srcs for c_ in (cands or [ph])]
+    for src_ in srcs[:40]:
+        try:
+            want = norm(repo, fi, ex.term_of_source(src_, stmt), keep=keep)
+        except Exception:
+            continue
+        if want.key() == got.key():
+            return True
+    return False
